@@ -2,9 +2,14 @@
 # Apalache: inductive invariant of the binary-search loop for axes of any length (C11, beyond the TLC bound)
 cd "$(dirname "$0")"
 rc=0
+before=$(ls -d /tmp/SANY* 2>/dev/null | sort)
+mkdir -p ../../build/apalache-tmp
+export JAVA_TOOL_OPTIONS="-Djava.io.tmpdir=$(pwd)/../../build/apalache-tmp"
 for step in "--init=IndInit --inv=IndInv --length=0" "--init=IndInv --inv=IndInv --length=1" "--init=IndInv --inv=Safety --length=0" "--init=IndInv --inv=Variant --length=1"; do
-  out=$(timeout 900 apalache-mc check $step --out-dir=/tmp/apalache-lookup LookupInd.tla 2>&1)
+  out=$(timeout 900 apalache-mc check $step --out-dir=../../build/apalache-lookup LookupInd.tla 2>&1)
   if echo "$out" | grep -q "The outcome is: NoError"; then echo "APALACHE OK   $step"; else echo "APALACHE FAIL $step"; rc=1; fi
 done
-rm -rf /tmp/apalache-lookup
+rm -rf ../../build/apalache-lookup ../../build/apalache-tmp
+# Apalache's SANY importer leaves scratch directories in /tmp: remove the ones this run created
+for d in $(ls -d /tmp/SANY* 2>/dev/null | sort); do echo "$before" | grep -qx "$d" || rm -rf "$d"; done
 exit $rc
